@@ -293,14 +293,14 @@ def basis_rules(run, db):
         except (AnalysisError, RecursionError) as e:
             fixed, ferr = 0, e
         try:
-            _basis_sweep_rules(run, db, qual)
+            _basis_sweep_rules(run, db, qual, fixed_decided=bool(fixed))
         except AnalysisError as e:
             if not fixed:
                 raise AnalysisError('%s; and fixed lengths are not followed either: %s' % (e, ferr))
             run.credit('C10.basis', 5, '%s: the induction over the sweep does not apply (%s); decided for %d fixed lengths' % (qual.split('.')[-1], str(e)[:140], fixed))
 
 
-def _basis_sweep_rules(run, db, only):
+def _basis_sweep_rules(run, db, only, fixed_decided=False):
     """Change of basis Q -> P (the transpose of the Q recurrences) feeding the Clenshaw sums."""
     def atoms(dom):
         def call_prysm(fi, args, kwargs, node):
@@ -327,6 +327,14 @@ def _basis_sweep_rules(run, db, only):
         c = lambda k: Rat(R.func('idx', [Rat(R.atom(cname)), k]))
         b = lambda k: Rat(R.func('idx', [tgt, k]))
         extra = dom.rat(fr.env.get('m')) if 'Q2d' in qual else None
+        absm = None
+        if extra is not None:
+            # |m| may be spelled abs(m) where it is used instead of folding the sign of m once: on the path analysed here m stands for a
+            # non-negative order, and that the sign is folded at all is decided with m = -3 by the fixed-length rule
+            absm = dom.rat(dom.call_ext('builtins.abs', [Sym(Rat(R.atom('m')))], {}, None))
+            if absm is not None and len(absm.atoms()) == 1 and s_val is not None:
+                s_val = s_val.subs({sorted(absm.atoms())[0]: Rat(R.atom('m'))})
+                extra = extra.subs({sorted(absm.atoms())[0]: Rat(R.atom('m'))})
         want = want_fn(R, c, b, n, extra)
         if s_idx is None or s_val is None:
             raise AnalysisError('%s: what the sweep stores (or where) is not followed as a function of the index' % f.name)
@@ -339,6 +347,8 @@ def _basis_sweep_rules(run, db, only):
         for t_, idx, val, nd, conds in pre:
             if idx is None or val is None or not (t_ == tgt):
                 continue
+            if extra is not None and absm is not None and len(absm.atoms()) == 1:
+                val = val.subs({sorted(absm.atoms())[0]: Rat(R.atom('m'))})
             stepv = want.subs({'n': idx})
             sub = {}
             for k in (1, 2):
@@ -361,7 +371,10 @@ def _basis_sweep_rules(run, db, only):
             mv = fr.env.get('m')
             okfold = any(isinstance(st, ast.If) and ast.unparse(st.test).replace(' ', '') == 'm<0' and [ast.unparse(x).replace(' ', '') for x in st.body] in (['m=-m'], ['m=abs(m)'])
                          for st in f.node.body) or any(isinstance(st, ast.Assign) and ast.unparse(st).replace(' ', '') == 'm=abs(m)' for st in f.node.body)
-            run.check(okfold, 'C10.basis', f.qual, 'order sign', 'a negative azimuthal order is converted with |m|', 'change_of_basis_Q2d_to_Pnm no longer folds the sign of m', f.loc())
+            if not okfold and fixed_decided:
+                run.ok('C10.basis', f.qual, 'order sign: a negative azimuthal order is converted with |m| (decided with m = -3 for fixed lengths)')
+            else:
+                run.check(okfold, 'C10.basis', f.qual, 'order sign', 'a negative azimuthal order is converted with |m|', 'change_of_basis_Q2d_to_Pnm no longer folds the sign of m', f.loc())
 
 
 def assembly_rules(run, db):
